@@ -191,6 +191,12 @@ func (e *txEval) checkDelivery(c *Ctx) {
 				continue
 			}
 			at := consumedAt(is.conn, is.endOff)
+			if ts.outageUntil > 0 && !is.conn.P.Trusted && at < tr.origin+ts.outageUntil+500*time.Millisecond {
+				// pushed by an untrusted peer while its inputs could not be fetched: the node
+				// forgets it (and must handle every later arrival as the first)
+				c.Probe("untrusted_push_during_fetch_outage")
+				continue
+			}
 			if at >= 0 && tr.readyThroughout(at-200*time.Millisecond, at+time.Second) {
 				must = fmt.Sprintf("body received from %s at t=%v while in sync", is.d.src, at)
 			}
@@ -637,9 +643,9 @@ var txStub = []string{"OutputFetcher/TxFetcher (world model)", "logger.NewWaitin
 func init() {
 	Register(&Check{Prop: "C03", Sub: "delivery", Weight: 1, Real: txReal, Stub: txStub,
 		Req:  []string{"in_sync_reached", "tx_delivered", "tx_delivered_unconfirmed"},
-		Rule: "transaction set (relevant or not, chained or independent), per-transaction arrival history (trusted/untrusted inv or body, local submission, first seen in a block, duplicates, silent peers) and schedule drawn from the tape; non-trivial = more than one transaction or at least one block.",
+		Rule: "transaction set (relevant or not, chained or independent), per-transaction arrival history (trusted/untrusted inv or body, local submission, first seen in a block, duplicates, silent peers, a first push by an untrusted peer while the output service cannot answer for its inputs) and schedule drawn from the tape; non-trivial = more than one transaction or at least one block.",
 		Run: func(c *Ctx) {
-			runTxCheck(c, txGenOpts{conflicts: 0, blocks: true, untrusted: true, chains: true, local: true, silentPeers: true, maxTxs: 12},
+			runTxCheck(c, txGenOpts{conflicts: 0, blocks: true, untrusted: true, chains: true, local: true, silentPeers: true, maxTxs: 12, outage: true},
 				func(e *txEval) { e.checkDelivery(c) })
 		}})
 	Register(&Check{Prop: "C04", Sub: "proofs-in-tx-histories", Weight: 1, Real: txReal, Stub: txStub,
